@@ -46,6 +46,7 @@ type ConcRun struct {
 	readers        map[int]*FeedReader // post-hoc verification state
 	sharedMap      string              // dataset whose deletion changed the deleted-datasets map in place
 	victimIDs      map[uint32]string   // C07c: internal id -> name of the datasets the scenario deletes
+	held           map[string]*server.Dataset // handles clients resolved before the history began (an upload keeps its handle for all batches of its body)
 }
 
 type readLookup struct {
@@ -95,6 +96,10 @@ func (r *ConcRun) execOp(t *Task, co *concOp) {
 	switch op.K {
 	case "batch":
 		ds := h.Dataset(op.DS)
+		if op.N == 1 && r.held[op.DS] != nil {
+			ds = r.held[op.DS]
+			r.Stats["writes_through_a_handle_held_across_a_rename"]++
+		}
 		if ds == nil {
 			co.err = fmt.Errorf("no dataset %s", op.DS)
 			return
@@ -302,6 +307,20 @@ func RunConcScenario(sc *Scenario) (vd *Verdict) {
 				return
 			}
 			m.Batch(op.DS, op.Ents)
+		case "renameRound":
+			// the dataset is given another name and then its old name back; a client that resolved it before keeps
+			// its handle and writes through it later
+			if r.held == nil {
+				r.held = map[string]*server.Dataset{}
+			}
+			r.held[op.DS] = h.Dataset(op.DS)
+			for _, step := range [][2]string{{op.DS, op.DS2}, {op.DS2, op.DS}} {
+				if _, err := h.Dsm.UpdateDataset(step[0], &server.UpdateDatasetConfig{ID: step[1]}); err != nil {
+					vd.Verdict, vd.Message = "error", "prefix rename: "+err.Error()
+					return
+				}
+			}
+			r.Stats["renames_there_and_back"]++
 		case "dup":
 			if ok, err := h.Dataset(op.DS).VerifInjectDuplicate(h.curie(op.S), time.Now().UnixNano()); err == nil && ok {
 				if cur := m.DS[op.DS].LatestOf(markerToFull(op.S)); cur != nil {
